@@ -1221,6 +1221,13 @@ func (p *Printer) mdNodeBody(n *MDNode) string {
 		}
 		return d + "!{" + strings.Join(fs, ", ") + "}"
 	}
+	if n.Kind == "{}" {
+		var fs []string
+		for _, f := range n.Fields {
+			fs = append(fs, p.mdField(f, false))
+		}
+		return "{" + strings.Join(fs, ", ") + "}"
+	}
 	if n.Kind == "DIExpression" || n.Kind == "DIArgList" {
 		var fs []string
 		for _, f := range n.Fields {
